@@ -237,6 +237,24 @@ def main():
         kf_lines, kf_fail = findings.run_pinned(pid, mod)
         if kf_fail:
             failure = kf_fail
+        # regression corpus: shrunk cases of earlier failures (committed under corpus/<id>/)
+        cdir = os.path.join(VERIF, "corpus", pid)
+        ncorpus = 0
+        if failure is None and os.path.isdir(cdir):
+            parts = {p.name: p for p in mod.PARTS}
+            for fn in sorted(os.listdir(cdir)):
+                if not fn.endswith(".json"):
+                    continue
+                with open(os.path.join(cdir, fn)) as f:
+                    rp = json.load(f)
+                if rp.get("part") not in parts:
+                    continue
+                ncorpus += 1
+                try:
+                    run_case(parts[rp["part"]], rp["case"], rec)
+                except Violation as v:
+                    failure = {"part": rp["part"], "case": rp["case"], "kind": v.kind, "msg": v.msg, "data": v.data}
+                    break
         jobs = args.jobs or (16 if args.tier == "thorough" else getattr(mod, "QUICK_JOBS", 1))
         if failure is None:
             if jobs == 1:
